@@ -3,6 +3,7 @@
 # Applies a one-off mutation to /repo, verifies it builds, runs the check(s), restores /repo.
 props=$1; file=$2; pat=$3; rep=$4
 cd /repo || exit 2
+if [ -n "$(git -C /repo status --porcelain)" ]; then echo 'REFUSING: /repo has uncommitted changes (they would be lost)'; exit 5; fi
 trap 'git -C /repo checkout -- . 2>/dev/null' EXIT
 python3 - "$file" "$pat" "$rep" <<'PY' || { echo "MUTATION DID NOT APPLY"; exit 3; }
 import re,sys
